@@ -64,10 +64,14 @@ FirstRoot(i, parts) ==
   IF i > Len(Roots) THEN NotFound
   ELSE LET r == ServeFrom(Roots[i], parts) IN IF r.found THEN r ELSE FirstRoot(i + 1, parts)
 
+
+\* ("/@ROOT@/", "//@ROOT@/": the absolute path again with two and three leading slashes - POSIX and pathlib
+\*  keep exactly two as a root of its own, "//", and the operating system resolves it like one)
+AbsLeads == {"@ROOT@/", "/@ROOT@/", "//@ROOT@/"}
 \* ---- the loader ----------------------------------------------------------------
 Resolve ==
   LET parts == WithExt(Parts(IF lead = "~/" THEN <<"~">> \o segs ELSE segs)) IN
-  IF lead = "@ROOT@/" THEN
+  IF lead \in AbsLeads THEN
        \* an absolute name: the design refuses it; as found, the join discarded the search path
        (IF "AbsoluteJoin" \in Dev THEN ServeFrom(<<>>, parts) ELSE NotFound)
   \* "/..." - also spelled as an empty first segment - is absolute: nothing of ours
@@ -82,7 +86,7 @@ Roots2 == << <<"r1">>, <<"r2">> >>
 
 \* ---- enumeration ----------------------------------------------------------------
 \* ("~/": to the loaders "~" is a directory name like any other - nobody's home directory)
-Init == lead \in {"", "/", "@ROOT@/", "~/"} /\ segs = <<>>
+Init == lead \in {"", "/", "~/"} \cup AbsLeads /\ segs = <<>>
 Next == Len(segs) < MaxSeg /\ \E s \in Segs : segs' = Append(segs, s) /\ UNCHANGED lead
 
 \* C13: whatever the name, what is served is a file inside one of the search paths
